@@ -29,6 +29,7 @@ type Engine struct {
 	loops  map[*ssa.Function]*LoopInfo
 	lits   map[*types.Var]Value
 	Errors []string
+	gwritten map[*ssa.Global]bool
 }
 
 func repoDir() string {
